@@ -10,7 +10,7 @@ import sys
 sys.path.insert(0, '/verif/tools')
 from rustexpr import strip_comments, find_fn, tokenize
 from translate_schema import block_after, split_arms
-from translate_methods import compact, DYN_SCALARS
+from translate_methods import compact, DYN_SCALARS, norm_arm_key
 
 IDENT = re.compile(r'^[A-Za-z_]\w*$')
 
@@ -44,9 +44,9 @@ def locals_of(toks):
     return loc
 
 
-def templ(body):
+def templ(body, bound=()):
     toks = [t[1] for t in tokenize(body)]
-    loc = locals_of(toks)
+    loc = locals_of(toks) | set(bound)
     out, holes = [], {}
     ne = nb = 0
     i = 0
@@ -78,12 +78,12 @@ def arms_of(path, fname):
     for arm in split_arms(mbody):
         m = re.match(r'^(.*?)=>\s*(.*)$', arm.strip(), re.S)
         pat, b = m.group(1), m.group(2).strip()
-        key = compact(pat)
+        key, bound = norm_arm_key(pat)
         if re.match(r'^OwnedDataModelType::(\w+)$', key) and key.split('::')[1] in DYN_SCALARS:
             continue
         if b.startswith('{') and b.endswith('}'):
             b = b[1:-1]
-        res[key] = b
+        res[key] = (b, bound)
     return res
 
 
@@ -92,8 +92,8 @@ if __name__ == '__main__':
     for tag, path, fname in (('ser', '/repo/source/postcard-dyn/src/ser.rs', 'ser_named_type'),
                              ('de', '/repo/source/postcard-dyn/src/de.rs', 'deserialize')):
         out[tag] = {}
-        for key, body in arms_of(path, fname).items():
-            t, holes = templ(body)
+        for key, (body, bound) in arms_of(path, fname).items():
+            t, holes = templ(body, bound)
             out[tag][key] = {'template': t, 'holes': holes}
     json.dump(out, open('/verif/tools/dyn_arm_templates.json', 'w'), indent=1, sort_keys=True)
     from translate_schema import coq_str
